@@ -41,7 +41,8 @@ func VerifC47RoundTrip() {
 // VerifC47Parse: Parse accepts exactly inputs of >= 16 bytes, and its result depends on the first 16 bytes only.
 func VerifC47Parse() {
 	n := verifCase("n") // every length 0..24
-	raw := verifBytes("raw", n)
+	// the input is the first n bytes of a larger (receive) buffer: capacity beyond the length must not matter
+	raw := verifBytes("raw", 40)[:n]
 	var h H
 	err := h.Parse(raw)
 	verifAssert((err == nil) == (n >= Len), "accept iff at least 16 bytes")
@@ -51,7 +52,7 @@ func VerifC47Parse() {
 		return
 	}
 	// a second buffer that agrees on the first 16 bytes and is arbitrary afterwards parses identically
-	raw2 := verifBytes("raw2", n)
+	raw2 := verifBytes("raw2", 40)[:n]
 	for i := 0; i < Len; i++ {
 		verifAssume(raw2[i] == raw[i])
 	}
